@@ -260,7 +260,6 @@ func (g *graph) Exist(ctx context.Context, t *triple.Triple) (bool, error) {
 	return b, err
 }
 
-
 func (g *graph) Objects(ctx context.Context, s *node.Node, p *predicate.Predicate, lo *storage.LookupOptions, out chan<- *triple.Object) error {
 	c, mode, j := g.s.begin("Objects", "stream", g.id, s.String()+" "+p.String()+" "+lo.String())
 	return stream(g.s, c, mode, j, out, func(ch chan<- *triple.Object) error { return g.g.Objects(ctx, s, p, lo, ch) })
